@@ -7,6 +7,7 @@
 //! objects (comma separated; operations name them by position):
 //!         cB<k>:<ns> bounded mpsc channel, capacity k, ns sender slots (1..3)   cU:<ns> unbounded
 //!         s<n> Semaphore::new(n)   m Mutex   w<k> RwLock::with_max_readers(k) (w = RwLock::new)   n Notify   o oneshot
+//!         h<init>:<ntx>:<nrx> watch::channel(init) with ntx (1..2) Sender slots and nrx (1..3) Receiver slots (clones made at creation)
 use shuttle::thread;
 use shuttle_engine::runtime::execution::CurrentSchedule;
 use shuttle_engine::runtime::runner::Runner;
@@ -20,6 +21,7 @@ use std::pin::Pin;
 use std::sync::Arc;
 use tk::sync::mpsc;
 use tk::sync::oneshot;
+use tk::sync::watch;
 
 thread_local! {
     static LOG: RefCell<Vec<String>> = const { RefCell::new(Vec::new()) };
@@ -112,6 +114,19 @@ enum Op {
     OsClose(usize),
     OsDropTx(usize),
     OsDropRx(usize),
+    WSend(usize, usize, u64),
+    WModify(usize, usize, u64, bool),
+    WReplace(usize, usize, u64),
+    WBorrow(usize, usize),
+    WBorrowUpd(usize, usize),
+    WHasChanged(usize, usize),
+    WChanged(usize, usize),
+    WWaitFor(usize, usize, u64),
+    WDropTx(usize, usize),
+    WDropRx(usize, usize),
+    WSubscribe(usize, usize, usize),
+    WClosed(usize, usize),
+    WInfo(usize, usize),
 }
 
 fn parse_op(w: &str) -> Result<Op, String> {
@@ -168,6 +183,19 @@ fn parse_op(w: &str) -> Result<Op, String> {
         "oc" => Op::OsClose(a(0)?),
         "ox" => Op::OsDropTx(a(0)?),
         "oy" => Op::OsDropRx(a(0)?),
+        "ws" => Op::WSend(a(0)?, a(1)?, a(2)? as u64),
+        "wm" => Op::WModify(a(0)?, a(1)?, a(2)? as u64, a(3)? == 1),
+        "wp" => Op::WReplace(a(0)?, a(1)?, a(2)? as u64),
+        "wb" => Op::WBorrow(a(0)?, a(1)?),
+        "wu" => Op::WBorrowUpd(a(0)?, a(1)?),
+        "wh" => Op::WHasChanged(a(0)?, a(1)?),
+        "wc" => Op::WChanged(a(0)?, a(1)?),
+        "wf" => Op::WWaitFor(a(0)?, a(1)?, a(2)? as u64),
+        "wx" => Op::WDropTx(a(0)?, a(1)?),
+        "wy" => Op::WDropRx(a(0)?, a(1)?),
+        "wn" => Op::WSubscribe(a(0)?, a(1)?, a(2)?),
+        "wl" => Op::WClosed(a(0)?, a(1)?),
+        "wi" => Op::WInfo(a(0)?, a(1)?),
         _ => return Err(format!("bad op {w}")),
     })
 }
@@ -194,8 +222,15 @@ struct OsObj {
     rx: UnsafeCell<Option<oneshot::Receiver<u64>>>,
 }
 
+/// Endpoints of one watch channel (same discipline as ChanObj).
+struct WatchObj {
+    txs: UnsafeCell<Vec<Option<watch::Sender<u64>>>>,
+    rxs: UnsafeCell<Vec<Option<watch::Receiver<u64>>>>,
+}
+
 enum Obj {
     Chan(ChanObj),
+    Watch(WatchObj),
     Sem(tk::sync::Semaphore),
     Mutex(tk::sync::Mutex<()>),
     RwLock(tk::sync::RwLock<()>),
@@ -226,6 +261,14 @@ impl Drop for Objs {
                 Obj::Oneshot(c) => {
                     std::mem::forget(c.tx.get_mut().take());
                     std::mem::forget(c.rx.get_mut().take());
+                }
+                Obj::Watch(c) => {
+                    for t in c.txs.get_mut().iter_mut() {
+                        std::mem::forget(t.take());
+                    }
+                    for t in c.rxs.get_mut().iter_mut() {
+                        std::mem::forget(t.take());
+                    }
                 }
                 _ => {}
             }
@@ -294,6 +337,31 @@ fn make_objs(specs: &[String]) -> Result<Objs, String> {
             b'n' => {
                 objs.push(Obj::Notify(tk::sync::Notify::new()));
                 next += 1;
+            }
+            b'h' => {
+                let parts: Vec<&str> = w[1..].split(':').collect();
+                if parts.len() != 3 {
+                    return Err(bad());
+                }
+                let init: u64 = parts[0].parse().map_err(|_| bad())?;
+                let ntx: usize = parts[1].parse().map_err(|_| bad())?;
+                let nrx: usize = parts[2].parse().map_err(|_| bad())?;
+                if ntx == 0 || ntx > 2 || nrx == 0 || nrx > 3 {
+                    return Err(bad());
+                }
+                let (tx, rx) = watch::channel::<u64>(init);
+                let mut txs: Vec<Option<watch::Sender<u64>>> = vec![None, None];
+                let mut rxs: Vec<Option<watch::Receiver<u64>>> = vec![None, None, None];
+                for slot in rxs.iter_mut().take(nrx).skip(1) {
+                    *slot = Some(rx.clone());
+                }
+                rxs[0] = Some(rx);
+                if ntx > 1 {
+                    txs[1] = Some(tx.clone());
+                }
+                txs[0] = Some(tx);
+                objs.push(Obj::Watch(WatchObj { txs: UnsafeCell::new(txs), rxs: UnsafeCell::new(rxs) }));
+                next += 4;
             }
             b'o' => {
                 let (tx, rx) = oneshot::channel::<u64>();
@@ -713,6 +781,113 @@ async fn run_ops_inner(p: Arc<Prog>, objs: Arc<Objs>, b: usize, is_task: bool) -
                 drop(rx);
                 log_op(94, &[]);
             }
+            Op::WSend(ob, slot, v) => {
+                let c = obj!(ob, Obj::Watch);
+                let Some(tx) = (unsafe { &*c.txs.get() }).get(slot).and_then(|t| t.as_ref()) else { misuse!() };
+                let r = tx.send(v);
+                log_op(100, &[r.is_ok() as u64]);
+            }
+            Op::WModify(ob, slot, v, m) => {
+                let c = obj!(ob, Obj::Watch);
+                let Some(tx) = (unsafe { &*c.txs.get() }).get(slot).and_then(|t| t.as_ref()) else { misuse!() };
+                // half of the unconditional modifications go through send_modify
+                let r = if m && v % 2 == 0 {
+                    tx.send_modify(|x| *x = v);
+                    true
+                } else {
+                    tx.send_if_modified(|x| {
+                        if m {
+                            *x = v;
+                        }
+                        m
+                    })
+                };
+                log_op(101, &[r as u64]);
+            }
+            Op::WReplace(ob, slot, v) => {
+                let c = obj!(ob, Obj::Watch);
+                let Some(tx) = (unsafe { &*c.txs.get() }).get(slot).and_then(|t| t.as_ref()) else { misuse!() };
+                let old = tx.send_replace(v);
+                log_op(102, &[old]);
+            }
+            Op::WBorrow(ob, slot) => {
+                let c = obj!(ob, Obj::Watch);
+                let Some(rx) = (unsafe { &*c.rxs.get() }).get(slot).and_then(|t| t.as_ref()) else { misuse!() };
+                let v = *rx.borrow();
+                log_op(103, &[v]);
+            }
+            Op::WBorrowUpd(ob, slot) => {
+                let c = obj!(ob, Obj::Watch);
+                let Some(rx) = (unsafe { &mut *c.rxs.get() }).get_mut(slot).and_then(|t| t.as_mut()) else { misuse!() };
+                let v = *rx.borrow_and_update();
+                log_op(104, &[v]);
+            }
+            Op::WHasChanged(ob, slot) => {
+                let c = obj!(ob, Obj::Watch);
+                let Some(rx) = (unsafe { &*c.rxs.get() }).get(slot).and_then(|t| t.as_ref()) else { misuse!() };
+                let code = match rx.has_changed() {
+                    Ok(false) => 0,
+                    Ok(true) => 1,
+                    Err(_) => 2,
+                };
+                log_op(105, &[code]);
+            }
+            Op::WChanged(ob, slot) => {
+                let c = obj!(ob, Obj::Watch);
+                let Some(rx) = (unsafe { &mut *c.rxs.get() }).get_mut(slot).and_then(|t| t.as_mut()) else { misuse!() };
+                let r = if is_task { rx.changed().await } else { shuttle::future::block_on(rx.changed()) };
+                log_op(106, &[r.is_ok() as u64]);
+            }
+            Op::WWaitFor(ob, slot, target) => {
+                let c = obj!(ob, Obj::Watch);
+                let Some(rx) = (unsafe { &mut *c.rxs.get() }).get_mut(slot).and_then(|t| t.as_mut()) else { misuse!() };
+                let r = if is_task {
+                    rx.wait_for(|x| *x >= target).await.map(|r| *r)
+                } else {
+                    shuttle::future::block_on(rx.wait_for(|x| *x >= target)).map(|r| *r)
+                };
+                match r {
+                    Ok(v) => log_op(107, &[1, v]),
+                    Err(_) => log_op(107, &[0]),
+                }
+            }
+            Op::WDropTx(ob, slot) => {
+                let c = obj!(ob, Obj::Watch);
+                let Some(tx) = (unsafe { &mut *c.txs.get() }).get_mut(slot).and_then(|t| t.take()) else { misuse!() };
+                drop(tx);
+                log_op(108, &[]);
+            }
+            Op::WDropRx(ob, slot) => {
+                let c = obj!(ob, Obj::Watch);
+                let Some(rx) = (unsafe { &mut *c.rxs.get() }).get_mut(slot).and_then(|t| t.take()) else { misuse!() };
+                drop(rx);
+                log_op(109, &[]);
+            }
+            Op::WSubscribe(ob, slot, rslot) => {
+                let c = obj!(ob, Obj::Watch);
+                let Some(tx) = (unsafe { &*c.txs.get() }).get(slot).and_then(|t| t.as_ref()) else { misuse!() };
+                let rxs = unsafe { &mut *c.rxs.get() };
+                if rslot >= 3 || rxs[rslot].is_some() {
+                    misuse!()
+                }
+                rxs[rslot] = Some(tx.subscribe());
+                log_op(110, &[]);
+            }
+            Op::WClosed(ob, slot) => {
+                let c = obj!(ob, Obj::Watch);
+                let Some(tx) = (unsafe { &*c.txs.get() }).get(slot).and_then(|t| t.as_ref()) else { misuse!() };
+                if is_task {
+                    tx.closed().await;
+                } else {
+                    shuttle::future::block_on(tx.closed());
+                }
+                log_op(111, &[]);
+            }
+            Op::WInfo(ob, slot) => {
+                let c = obj!(ob, Obj::Watch);
+                let Some(tx) = (unsafe { &*c.txs.get() }).get(slot).and_then(|t| t.as_ref()) else { misuse!() };
+                log_op(112, &[tx.is_closed() as u64, tx.receiver_count() as u64]);
+            }
         }
     }
     log_op(55, &[]);
@@ -793,7 +968,7 @@ fn parse_prog(objs: &str, bodies: &str) -> Result<Arc<Prog>, String> {
     let specs: Vec<String> = crate::split_list(objs, ',').iter().map(|s| s.to_string()).collect();
     // validate the object specs once, outside the execution
     for w in &specs {
-        if w.is_empty() || !matches!(w.as_bytes()[0], b'c' | b's' | b'm' | b'w' | b'n' | b'o') {
+        if w.is_empty() || !matches!(w.as_bytes()[0], b'c' | b's' | b'm' | b'w' | b'n' | b'o' | b'h') {
             return Err(format!("bad object {w}"));
         }
     }
